@@ -41,9 +41,12 @@ Definition check_case (c : case) : list nat :=
             | None => false
             end in
   let c2 := list_eqb Z.eqb (column_bytes (cs_codec c) (cs_btype c) (cs_crc c) blocks) (cs_data c) in
-  let decoded := column_decode (cs_codec c) (cs_data c) (map (fun '(_, rc, o, l) => (o, l, rc)) (cs_index c)) in
-  let c3 := cs_known c || list_eqb olist_eqb decoded blocks in
-  let c4 := forallb (fun '(start, reqs, outs) => list_eqb resp_eqb (col_read _ decoded start reqs) outs)
-                    (cs_reads c) in
-  (if c1 then [] else [1%nat]) ++ (if c2 then [] else [2%nat]) ++ (if c3 then [] else [3%nat])
-    ++ (if c4 then [] else [4%nat]).
+  (if c1 then [] else [1%nat]) ++
+  (* the bytes are only decoded with the model's codec when they are the model's bytes *)
+  (if c2 then
+     let decoded := column_decode (cs_codec c) (cs_data c) (map (fun '(_, rc, o, l) => (o, l, rc)) (cs_index c)) in
+     let c3 := cs_known c || list_eqb olist_eqb decoded blocks in
+     let c4 := forallb (fun '(start, reqs, outs) => list_eqb resp_eqb (col_read _ decoded start reqs) outs)
+                       (cs_reads c) in
+     (if c3 then [] else [3%nat]) ++ (if c4 then [] else [4%nat])
+   else [2%nat]).
